@@ -18,7 +18,7 @@ ANCHORS = ["bitarray.py::BitArray.pack", "bitarray.py::BitArray.unpack", "bitarr
 BITS = [1, 2, 4, 8, 16, 32, 64]
 DTS = ["int8", "int16", "int32", "int64", "uint8", "uint16", "uint32", "uint64", ">i8", ">u8", ">i4", ">u2"]      # also non-native byte order
 FLOOR_TAGS = ["b:%d" % b for b in BITS] + ["len:multiple", "len:multiple+1", "len:multiple-1", "len:<register", "w:1", "w:full", "w:mid", "style:rand", "style:ones", "style:alt", "style:sparse", "style:burst",
-                                           "straddle", "twin", "wtype:numpy", "w*b:54..63", "huge", "window-sizes-vary"]
+                                           "straddle", "twin", "receiver:decoding-subclass", "wtype:numpy", "w*b:54..63", "huge", "window-sizes-vary"]
 FLOOR_MONITORS = ["c13:unpack", "c13:getint", "c13:getlist", "c13:window", "c13:unpack-again"]
 FP_STRICT = True       # a floating-point event inside the library that the dense computation does not have is a violation (shard.FpMonitor)
 N_RANDOM = {"quick": 24000, "thorough": 200000}
@@ -83,10 +83,28 @@ def run_huge(case):
     return held(tags, True)
 
 
+_SUBS = {}
+
+
+def _decoding_subclass(BA):
+    if BA not in _SUBS:
+        class Decoding(BA):
+            def unpack(self):
+                return np.asarray(super().unpack()).astype(np.int64) + 100000
+        _SUBS[BA] = Decoding
+    return _SUBS[BA]
+
+
 def run(case):
     if case.get("huge"):
         return run_huge(case)
     BA = CTX.lib.BitArray
+    unp = lambda x: np.asarray(x).tolist()
+    if case.get("subclass") and case["b"] <= 32:
+        # a user subclass that decodes to something of its own (letters for 2-bit codes, here: the numbers moved by a constant): what the packed
+        # array answers -- elements, windows -- is a matter of the stored digits, not of the decoded form
+        BA = _decoding_subclass(BA)
+        unp = lambda x: [int(v) - 100000 for v in np.asarray(x).tolist()]
     b, vals, w, pos = case["b"], case["vals"], case["w"], case["pos"]
     dt = np.dtype(case["dtype"])
     per = 64 // b
@@ -98,6 +116,8 @@ def run(case):
             "w:1" if w == 1 else ("w:full" if w == per else "w:mid")] + (["wtype:numpy"] if case.get("wtype") else []) + (["w*b:54..63"] if 54 <= w * b <= 63 else [])
     if L > per and w > 1:
         tags.append("straddle")
+    if case.get("subclass") and b <= 32:
+        tags.append("receiver:decoding-subclass")
     p = attempt(BA.pack, arr, b)
     desc = "BitArray.pack(%s %s, %d)" % (dt, short(vals, 100), b)
     if not p.ok:
@@ -110,7 +130,7 @@ def run(case):
     def obs_u():
         CTX.tick("c13:unpack")
         o = attempt(lambda: ba.unpack())
-        if not o.ok or np.asarray(o.value).tolist() != vals:
+        if not o.ok or unp(o.value) != vals:
             return "unpack() gives %s" % (repr(o) if not o.ok else short(o.value, 160))
         scribble(o.value)      # the unpacked array belongs to the caller
 
@@ -127,11 +147,11 @@ def run(case):
     def obs_l():
         CTX.tick("c13:getlist", len(pos) > 0)
         e = [vals[q] for q in pos]
-        o = attempt(lambda: np.asarray(ba[list(pos)].unpack()).tolist())
+        o = attempt(lambda: unp(ba[list(pos)].unpack()))
         if not o.ok or o.value != e:
             return "packed[%s].unpack() gives %s, expected %s" % (pos, repr(o) if not o.ok else short(o.value, 120), short(e, 120))
         pdt = ["int64", "int32", "intp", "uint16", ">i8", ">i4", "uint64"][len(pos) % 7]        # position vectors of several integer types, byte-swapped ones too
-        o = attempt(lambda: np.asarray(ba[np.array(pos, dtype=pdt)].unpack()).tolist())
+        o = attempt(lambda: unp(ba[np.array(pos, dtype=pdt)].unpack()))
         if not o.ok or o.value != e:
             return "packed[array(%s)].unpack() gives %s, expected %s" % (pos, repr(o) if not o.ok else short(o.value, 120), short(e, 120))
         # "returns a packed array of those elements": it must answer like any packed array (element access, windows)
@@ -149,7 +169,7 @@ def run(case):
             if len(e) >= 3:
                 a2 = 1 + (len(e) + L) % max(1, min(per, len(e) - 2))
                 for sub in (list(range(a2, len(e))), list(range(len(e) - 1, -1, -2))):
-                    o = attempt(lambda: np.asarray(ba[list(pos)][sub].unpack()).tolist())
+                    o = attempt(lambda: unp(ba[list(pos)][sub].unpack()))
                     if not o.ok or o.value != [e[q] for q in sub]:
                         return "packed[%s][%s].unpack() gives %s, expected %s" % (short(pos, 60), short(sub, 60), repr(o) if not o.ok else short(o.value, 100), short([e[q] for q in sub], 100))
 
@@ -188,7 +208,7 @@ def run(case):
     if case.get("twin"):
         # a second packed array with another bit width is created and used in between: objects must not share state
         tb, tvals = case["twin"]["b"], case["twin"]["vals"]
-        twin = BA.pack(np.array(tvals, dtype=case["twin"].get("dtype", "uint64")), tb)
+        twin = CTX.lib.BitArray.pack(np.array(tvals, dtype=case["twin"].get("dtype", "uint64")), tb)
         tags.append("twin")
     for ch in case["order"]:
         done += ch
@@ -260,6 +280,8 @@ def gen_case(rng, b, L, w=None, style=None, dtype=None):
         top = min(per, L)
         c["wseq"] = [w] + [rng.choice([top, max(1, w - 1), min(top, w + 1), rng.randint(1, top)]) for _ in range(2)]
         c["order"] = order + "w" * rng.randint(1, 2)
+    if rng.random() < 0.15:
+        c["subclass"] = True
     if rng.random() < 0.3:
         c["wtype"] = rng.choice(["int64", "int32", "intp", "uint64", "int16"])      # types that hold the array length (numpy scalar arithmetic with a narrower type overflows by numpy's own rules)
     if rng.random() < 0.25:
